@@ -17,7 +17,10 @@ TOL = 1e-9
 
 
 def units(tier):
-    return [(i, 1250) for i in range(8)] if tier == "quick" else [(i, 30000) for i in range(16)]
+    if tier == "quick":
+        return [(i, 1250) for i in range(8)]
+    # plain generation for the bulk, plus four small units in which Hypothesis hill-climbs on the residual/tolerance ratios
+    return [(i, 30000) for i in range(16)] + [("target-%d" % i, 2500) for i in range(4)]
 
 
 def _b0():
